@@ -23,7 +23,10 @@ FLAVOURS = {
     "fuzz": dict(cxx="clang++-14", cc="clang-14",
                  flags=["-O1", "-g1", "-fsanitize=fuzzer-no-link,address,undefined",
                         "-fno-sanitize-recover=all", "-fno-sanitize=object-size",
-                        "-fno-sanitize=nonnull-attribute"]),
+                        "-fno-sanitize=nonnull-attribute"],
+                 # clang rejects util/variables.h (nlohmann::basic_json<> used while only forward-declared;
+                 # gcc accepts it): force-include the full json header in C++ TUs of this flavour
+                 cxx_extra=["-include", os.path.join(REPO, "3rd-party", "nlohmann", "json.hpp")]),
 }
 
 
@@ -144,7 +147,7 @@ def build_lib(flavour, jobs=16, quiet=False):
                 src = os.path.join(REPO, "modules", mod, s)
                 obj = os.path.join(bdir, "obj", mod, s.replace("/", "__") + ".o")
                 isc = s.endswith(".c")
-                cmd = [fl["cc"] if isc else fl["cxx"]] + ([] if isc else ["-std=gnu++11"]) + fl["flags"] + \
+                cmd = [fl["cc"] if isc else fl["cxx"]] + ([] if isc else ["-std=gnu++11"] + fl.get("cxx_extra", [])) + fl["flags"] + \
                     common_flags() + ['-DMODULE_ID="tbox.%s"' % mod]
                 tasks.append((cmd, src, obj))
         rebuilt = 0
@@ -189,7 +192,7 @@ def build_harness(name, sources, flavour, extra_flags=(), link_flags=(), jobs=16
         for s in sources:
             src = os.path.join(VERIF, s)
             obj = os.path.join(bdir, s.replace("/", "__") + ".o")
-            cmd = [fl["cxx"], "-std=" + std] + fl["flags"] + common_flags() + \
+            cmd = [fl["cxx"], "-std=" + std] + fl.get("cxx_extra", []) + fl["flags"] + common_flags() + \
                 ["-I" + os.path.join(VERIF, "harness"), '-DMODULE_ID="verif"'] + list(extra_flags)
             tasks.append((cmd, src, obj))
             objs.append(obj)
